@@ -1958,7 +1958,14 @@ impl<T: PPGEvaluatorStrategy> PPGEvaluator<T> {
                         invalidated = true;
                     }
                     Some(my_historical_input) => {
-                        if upstream_historical_output != my_historical_input {
+                        // textual differences the strategy judges unaltered
+                        // (timestamps...) must not invalidate
+                        if strategy.is_history_altered(
+                            &jobs[upstream_idx].job_id,
+                            &jobs[node_idx].job_id,
+                            my_historical_input,
+                            upstream_historical_output,
+                        ) {
                             debug!("edge invalidated by epheremeral changed in prev run: History for {}->{} changed",
                                    &jobs[upstream_idx].job_id,
                                    &jobs[node_idx].job_id);
